@@ -516,8 +516,12 @@ def _linear_batch_rule(
     x_bdim, w_bdim, b_bdim = batch_dims
     if w_bdim is not None or b_bdim is not None:
         raise NotImplementedError("Batching over Linear parameters is not supported.")
+    if x_bdim is None:
+        return LinearPlugin._PRIM.bind(x, weight, bias), None
+    # the last axis carries the features: keep the batch dimension in front of it
+    x = jnp.moveaxis(x, x_bdim, 0)
     out = LinearPlugin._PRIM.bind(x, weight, bias)
-    return out, x_bdim
+    return out, 0
 
 
 batching.primitive_batchers[LinearPlugin._PRIM] = _linear_batch_rule
